@@ -101,7 +101,7 @@ def gen_moasha_spec(rng, tier):
 
 
 def gen_cases(rng, tier):
-    n_pts, n_mo = (120, 60) if tier == "quick" else (2500, 900)
+    n_pts, n_mo = (120, 60) if tier == "quick" else (2500, 700)
     for _ in range(n_pts):
         yield gen_points_spec(rng, tier)
     for _ in range(n_mo):
@@ -220,6 +220,8 @@ def monitor_moasha(spec, t):
     nds = spec["priority"]["kind"] == "nds"
     mxs = spec["priority"].get("max_num_samples") if nds else None
     for ev in t["events"]:
+        if ev["ev"] in ("add", "remove") and ev.get("rungs_changed"):
+            out.append({"signature": "c19:moasha-rung-corrupted", "what": f"rungs changed by on_trial_{ev['ev']}", "detail": ev})
         if ev["ev"] not in ("result", "complete"):
             continue
         tid, r, d = ev["trial"], ev["iter"], ev["decision"]
